@@ -1,4 +1,205 @@
-import LlgoVerif.Spec.TypeIdent
 import LlgoVerif.Model.Iface
-namespace LlgoVerif.Types
-end LlgoVerif.Types
+/-!
+# Lemmas for C07: the method-table scans of `z_face.go` decide interface satisfaction
+exactly when both tables are strictly sorted by ONE order.
+-/
+namespace LlgoVerif.Face
+
+/-! ## Go's string order on bytes -/
+
+theorem bytesLt_irrefl : ∀ a, bytesLt a a = false
+  | [] => rfl
+  | x :: xs => by simp [bytesLt, bytesLt_irrefl xs]
+
+theorem bytesLt_trans : ∀ a b c, bytesLt a b = true → bytesLt b c = true → bytesLt a c = true
+  | [], [], _, h, _ => by simp [bytesLt] at h
+  | [], _ :: _, [], _, h => by simp [bytesLt] at h
+  | [], _ :: _, _ :: _, _, _ => by simp [bytesLt]
+  | _ :: _, [], _, h, _ => by simp [bytesLt] at h
+  | _ :: _, _ :: _, [], _, h => by simp [bytesLt] at h
+  | x :: xs, y :: ys, z :: zs, h1, h2 => by
+    simp only [bytesLt] at h1 h2 ⊢
+    by_cases hxy : x < y
+    · by_cases hyz : y < z
+      · have : x < z := by omega
+        simp [this]
+      · simp only [hyz, if_false] at h2
+        by_cases hzy : z < y
+        · simp [hzy] at h2
+        · have : x < z := by omega
+          simp [this]
+    · simp only [hxy, if_false] at h1
+      by_cases hyx : y < x
+      · simp [hyx] at h1
+      · simp only [hyx, if_false] at h1
+        have hxy' : x = y := by omega
+        subst hxy'
+        by_cases hyz : x < z
+        · simp [hyz]
+        · simp only [hyz, if_false] at h2 ⊢
+          by_cases hzy : z < x
+          · simp [hzy] at h2
+          · simp only [hzy, if_false] at h2 ⊢
+            exact bytesLt_trans xs ys zs h1 h2
+
+theorem bytesLt_total : ∀ a b, bytesLt a b = false → a = b ∨ bytesLt b a = true
+  | [], [], _ => Or.inl rfl
+  | [], _ :: _, h => by simp [bytesLt] at h
+  | _ :: _, [], _ => by simp [bytesLt]
+  | x :: xs, y :: ys, h => by
+    simp only [bytesLt] at h ⊢
+    by_cases hxy : x < y
+    · simp [hxy] at h
+    · simp only [hxy, if_false] at h
+      by_cases hyx : y < x
+      · simp [hyx]
+      · simp only [hyx, if_false] at h ⊢
+        have : x = y := by omega
+        subst this
+        rcases bytesLt_total xs ys h with h' | h'
+        · left; rw [h']
+        · right; exact h'
+
+/-! ## the two-index scan -/
+
+/-- the facts about the order the scan relies on -/
+structure StrictOrder (lt : List Nat → List Nat → Prop) : Prop where
+  irrefl : ∀ a, ¬ lt a a
+  trans : ∀ a b c, lt a b → lt b c → lt a c
+
+def SortedBy (lt : List Nat → List Nat → Prop) (l : List Ent) : Prop :=
+  l.Pairwise fun a b => lt a.name b.name
+
+theorem same_iff (a b : Ent) : a.same b = true ↔ a.name = b.name ∧ a.typ = b.typ := by
+  simp [Ent.same]
+
+theorem scan_correct {lt : List Nat → List Nat → Prop} (ho : StrictOrder lt) :
+    ∀ (v t : List Ent), SortedBy lt t → SortedBy lt v → (scan t v = true ↔ implSpec t v)
+  | [], [], _, _ => by simp [scan, implSpec]
+  | [], tm :: ts, _, _ => by
+    simp only [scan, Bool.false_eq_true, false_iff]
+    intro h
+    obtain ⟨m, hm, _⟩ := h tm (by simp)
+    simp at hm
+  | vm :: vs, [], _, _ => by simp [scan, implSpec]
+  | vm :: vs, tm :: ts, st, sv => by
+    have st' : SortedBy lt ts := (List.pairwise_cons.1 st).2
+    have sv' : SortedBy lt vs := (List.pairwise_cons.1 sv).2
+    have ht : ∀ e ∈ ts, lt tm.name e.name := (List.pairwise_cons.1 st).1
+    have hv : ∀ m ∈ vs, lt vm.name m.name := (List.pairwise_cons.1 sv).1
+    simp only [scan]
+    by_cases hs : vm.same tm = true
+    · simp only [hs, if_true]
+      rw [scan_correct ho vs ts st' sv']
+      have hs' := (same_iff vm tm).1 hs
+      constructor
+      · intro h e he
+        simp only [List.mem_cons] at he
+        rcases he with rfl | he
+        · exact ⟨vm, by simp, hs'.1, hs'.2⟩
+        · obtain ⟨m, hm, h1, h2⟩ := h e he
+          exact ⟨m, by simp [hm], h1, h2⟩
+      · intro h e he
+        obtain ⟨m, hm, h1, h2⟩ := h e (by simp [he])
+        simp only [List.mem_cons] at hm
+        rcases hm with rfl | hm
+        · exfalso
+          have := ht e he
+          rw [← h1, hs'.1] at this
+          exact ho.irrefl _ this
+        · exact ⟨m, hm, h1, h2⟩
+    · simp only [hs, if_false]
+      rw [scan_correct ho vs (tm :: ts) st sv']
+      constructor
+      · intro h e he
+        obtain ⟨m, hm, h1, h2⟩ := h e he
+        exact ⟨m, by simp [hm], h1, h2⟩
+      · intro h e he
+        obtain ⟨m, hm, h1, h2⟩ := h e he
+        simp only [List.mem_cons] at hm
+        rcases hm with rfl | hm
+        · exfalso
+          simp only [List.mem_cons] at he
+          rcases he with rfl | he
+          · exact hs ((same_iff _ _).2 ⟨h1, h2⟩)
+          · -- the entry matched by `vm` lies after `tm`; `tm` itself must then be matched after `vm`
+            obtain ⟨m', hm', h1', h2'⟩ := h tm (by simp)
+            simp only [List.mem_cons] at hm'
+            rcases hm' with rfl | hm'
+            · exact hs ((same_iff _ _).2 ⟨h1', h2'⟩)
+            · have a := ht e he          -- tm.name < e.name = vm.name
+              have b := hv m' hm'        -- vm.name < m'.name = tm.name
+              rw [← h1] at a
+              rw [h1'] at b
+              exact ho.irrefl _ (ho.trans _ _ _ a b)
+        · exact ⟨m, hm, h1, h2⟩
+
+/-! ## findMethod / NewItab -/
+
+theorem bytesLt_strict : StrictOrder fun a b => bytesLt a b = true :=
+  ⟨fun a h => by simp [bytesLt_irrefl] at h, bytesLt_trans⟩
+
+theorem findMethod_correct : ∀ (v : List Ent) (im : Ent), sortedNames v →
+    ((findMethod v im).2 = true ↔ ∃ m ∈ v, m.name = im.name ∧ m.typ = im.typ)
+  | [], im, _ => by simp [findMethod]
+  | m :: ms, im, sv => by
+    have sv' : sortedNames ms := (List.pairwise_cons.1 sv).2
+    have hv : ∀ x ∈ ms, bytesLt m.name x.name = true := (List.pairwise_cons.1 sv).1
+    simp only [findMethod]
+    by_cases hlt : bytesLt m.name im.name = true
+    · simp only [hlt, Bool.not_true, Bool.false_eq_true, if_false]
+      rw [findMethod_correct ms im sv']
+      constructor
+      · rintro ⟨x, hx, h⟩; exact ⟨x, by simp [hx], h⟩
+      · rintro ⟨x, hx, h1, h2⟩
+        simp only [List.mem_cons] at hx
+        rcases hx with rfl | hx
+        · rw [h1, bytesLt_irrefl] at hlt; cases hlt
+        · exact ⟨x, hx, h1, h2⟩
+    · have hlt' : bytesLt m.name im.name = false := by simpa using hlt
+      simp only [hlt', Bool.not_false, if_true]
+      by_cases he : (m.name == im.name && m.typ == im.typ) = true
+      · simp only [he, if_true, true_iff]
+        simp only [Bool.and_eq_true, beq_iff_eq] at he
+        exact ⟨m, by simp, he.1, he.2⟩
+      · simp only [he, if_false, Bool.false_eq_true, false_iff]
+        rintro ⟨x, hx, h1, h2⟩
+        simp only [List.mem_cons] at hx
+        rcases hx with rfl | hx
+        · exact he (by simp [h1, h2])
+        · -- a later entry has a name above `m.name`, which is not below the wanted name
+          have a := hv x hx
+          rw [h1] at a
+          rcases bytesLt_total _ _ hlt' with e | e
+          · rw [e, bytesLt_irrefl] at a; cases a
+          · have := bytesLt_trans _ _ _ a e
+            rw [bytesLt_irrefl] at this; cases this
+
+theorem newItabFuns_isSome (t v : List Ent) (sv : sortedNames v) :
+    (newItabFuns t v).isSome = true ↔ implSpec t v := by
+  induction t with
+  | nil => simp [newItabFuns, implSpec]
+  | cons im ims ih =>
+    have hf := findMethod_correct v im sv
+    unfold newItabFuns at ih ⊢
+    simp only [List.mapM_cons, implSpec, List.mem_cons, forall_eq_or_imp]
+    cases h2 : (findMethod v im).2 with
+    | false =>
+      simp only [h2, Bool.false_eq_true, false_iff] at hf
+      simp [h2, hf]
+    | true =>
+      simp only [h2, true_iff] at hf
+      simp only [if_true, Option.pure_def, Option.bind_eq_bind, Option.bind_some]
+      cases hm : List.mapM (fun im => if (findMethod v im).2 = true then some (findMethod v im).1 else none) ims with
+      | none =>
+        rw [hm] at ih
+        simp only [Option.isSome_none, Bool.false_eq_true, false_iff] at ih
+        simp [hf, fun h => ih h]
+        intro h; exact absurd h ih
+      | some l =>
+        rw [hm] at ih
+        simp only [Option.isSome_some, true_iff] at ih
+        simp [hf]
+        exact ih
+
+end LlgoVerif.Face
